@@ -60,10 +60,7 @@ theorem tree_inv_insert {o : Ops R G} (L : Lawful o) (t : Tree G) (i : TInv o t)
     TInv o (t.insert o r clock) ∧ (t.insert o r clock).leafSize = t.leafSize ∧
     ∀ q : Nat → Bool, fsum o t.leafSize q (t.insert o r clock).root.leaves =
       if q (clock / t.leafSize) then o.ins (fsum o t.leafSize q t.root.leaves) r
-      else fsum o t.leafSize q t.root.leaves := by
-  have := updatePath_spec L t i clock (fun d => o.ins d r) (o.ins o.zero r) (fun d => L.ins_eq d r)
-  refine ⟨this.1, this.2.1, fun q => ?_⟩
-  rw [Tree.insert, this.2.2 q, ← L.ins_eq]
+      else fsum o t.leafSize q t.root.leaves := insert_spec L t i r clock
 
 /-- what `Root()` and `ZeroTo(c)` return, for EVERY `c`, is determined by the leaves: the sum of all leaves, and the
     sum of the leaves on pages up to the page of `c` -/
